@@ -1,11 +1,12 @@
 #!/bin/sh
 # Unchanged-tree sweep: every property's check at the given tier for the given seeds, in the current /verif
 # tree (run it from a `vp run` snapshot so that it does not disturb the working copy).
-#   tools/sweep.sh <tier> <seed> [<seed> ...]
+#   tools/sweep.sh <tier> <seed> [<seed> ...]        (SWEEP_PROPS="C05 C06 …" restricts the properties)
 tier=$1; shift
+props=${SWEEP_PROPS:-C01 C02 C03 C04 C05 C06 C07 C08 C09 C10 C11 C12 C13 C14 C15 C16 C17 C18 C19}
 ./setup.sh > sweep_setup.log 2>&1 || { echo "setup failed"; tail -20 sweep_setup.log; exit 2; }
 for seed in "$@"; do
-  for p in C01 C02 C03 C04 C05 C06 C07 C08 C09 C10 C11 C12 C13 C14 C15 C16 C17 C18 C19; do
+  for p in $props; do
     start=$(date +%s)
     VERIF_SEED=$seed timeout 7200 ./check $p --tier $tier > sweep_${p}_${seed}.log 2>&1
     rc=$?
